@@ -5,6 +5,7 @@ package c05
 import (
 	"encoding/json"
 	"fmt"
+	"io"
 	"os"
 	"sort"
 	"strings"
@@ -13,6 +14,9 @@ import (
 	chart "helm.sh/helm/v4/pkg/chart/v2"
 	chartutil "helm.sh/helm/v4/pkg/chart/v2/util"
 	"helm.sh/helm/v4/pkg/engine"
+	kubefake "helm.sh/helm/v4/pkg/kube/fake"
+	"helm.sh/helm/v4/pkg/storage"
+	"helm.sh/helm/v4/pkg/storage/driver"
 	"helm.sh/helm/v4/pkg/vorder"
 
 	"verif/harness/internal/core"
@@ -110,6 +114,22 @@ func families() []family {
 		c.AddDependency(e1, e2)
 		c.Templates = append(c.Templates, f("templates/iv.yaml", cm("iv", "  v: {{ .Values | toJson | quote }}\n")))
 	}
+	twoFailing := func(c *chart.Chart) {
+		// two template files that both fail: the reported error must not depend on execution order
+		c.Templates = append(c.Templates, f("templates/fa.yaml", `{{ fail "A failed" }}`), f("templates/fb.yaml", `{{ fail "B failed" }}`), f("templates/ok.yaml", cm("ok", "  k: v\n")))
+	}
+	crossFile := func(c *chart.Chart) {
+		// files of one chart share .Values: a file that writes it and files that read it make the
+		// execution order of template files observable (it must be the sorted path order)
+		c.Values["shared"] = "initial"
+		c.Templates = append(c.Templates,
+			f("templates/m1.yaml", cm("m1", "  before: {{ .Values.shared | quote }}\n")),
+			f("templates/m2.yaml", `{{- $_ := set .Values "shared" "set-by-m2" -}}`+"\n"+cm("m2", "  wrote: \"yes\"\n")),
+			f("templates/m3.yaml", cm("m3", "  after: {{ .Values.shared | quote }}\n")))
+	}
+	caps := func(c *chart.Chart) {
+		c.Templates = append(c.Templates, f("templates/caps.yaml", cm("caps", "  hasA: {{ .Capabilities.APIVersions.Has \"verif.a/v1\" | quote }}\n  hasB: {{ .Capabilities.APIVersions.Has \"verif.b/v1\" | quote }}\n  kube: {{ .Capabilities.KubeVersion.Version | quote }}\n  rel: {{ .Release.Name | quote }}\n")))
+	}
 	mk := func(fs ...func(*chart.Chart)) func() *chart.Chart {
 		return func() *chart.Chart {
 			c := base("root")
@@ -119,7 +139,7 @@ func families() []family {
 			return c
 		}
 	}
-	single := map[string]func(*chart.Chart){"multi-kind": multiKind, "dup-define": dupDefine, "notes": notes, "tpl-include": tplInclude, "files": files,
+	single := map[string]func(*chart.Chart){"two-failing": twoFailing, "cross-file-values": crossFile, "capabilities": caps, "multi-kind": multiKind, "dup-define": dupDefine, "notes": notes, "tpl-include": tplInclude, "files": files,
 		"sub-defines": subDefines, "globals": globals, "import-values": importValues}
 	var names []string
 	for n := range single {
@@ -295,10 +315,11 @@ func fieldOf(o outputs, name string) string {
 }
 
 type detReplay struct {
-	Variant variant     `json:"variant"`
-	Base    variant     `json:"base"`
-	Plan    map[int]int `json:"plan"`
-	Key     string      `json:"key"`
+	CapsReuse []string    `json:"caps_reuse,omitempty"`
+	Variant   variant     `json:"variant"`
+	Base      variant     `json:"base"`
+	Plan      map[int]int `json:"plan"`
+	Key       string      `json:"key"`
 }
 
 // judge compares a deviated execution with its baseline and returns a violation or nil.
@@ -340,6 +361,13 @@ func replayDeterminism(c *core.Ctx, data json.RawMessage) []core.Violation {
 		return nil
 	}
 	fams := families()
+	if len(rd.CapsReuse) == 2 {
+		first, third := capsReuse(fams, rd.Variant.Family, rd.CapsReuse[0], rd.CapsReuse[1])
+		if first != third {
+			return core.FilterKey([]core.Violation{{Property: prop, Key: rd.Key, What: firstDiff(first, third), Replay: data}}, rd.Key)
+		}
+		return nil
+	}
 	o0, occs := execute(fams, rd.Base, nil)
 	o, occs2 := execute(fams, rd.Variant, rd.Plan)
 	if len(occs2) > len(occs) {
@@ -394,8 +422,55 @@ func allPerms(n int) [][]int {
 	return out
 }
 
+// capsReuse renders with configuration A (client-only, one extra API version),
+// then with an unrelated configuration B (another extra API version), then again
+// with A as a cluster dry run that reuses A's cached capabilities: the third
+// output must equal the first (same chart, values, release options, capabilities).
+func capsReuse(fams []family, famIdx int, extraA, extraB string) (string, string) {
+	render := func(cfg *action.Configuration, clientOnly bool, api string) string {
+		inst := action.NewInstall(cfg)
+		inst.ClientOnly, inst.DryRun = clientOnly, true
+		inst.ReleaseName, inst.Namespace = "r", "default"
+		if api != "" {
+			inst.APIVersions = chartutil.VersionSet{api}
+		}
+		rel, err := inst.Run(fams[famIdx].Build(), map[string]any{})
+		if err != nil {
+			return "error: " + err.Error()
+		}
+		return rel.Manifest
+	}
+	newCfg := func() *action.Configuration {
+		mem := driver.NewMemory()
+		mem.SetNamespace("default")
+		return &action.Configuration{KubeClient: &kubefake.PrintingKubeClient{Out: io.Discard}, Releases: storage.Init(mem)}
+	}
+	cfgA, cfgB := newCfg(), newCfg()
+	first := render(cfgA, true, extraA)
+	_ = render(cfgB, true, extraB)
+	third := render(cfgA, false, "")
+	return first, third
+}
+
 func runDeterminism(c *core.Ctx) {
 	fams := families()
+	for fi := range fams {
+		if fams[fi].Name != "capabilities" || !c.Mine(int64(fi)) {
+			continue
+		}
+		for _, pair := range [][2]string{{"verif.a/v1", "verif.b/v1"}, {"verif.b/v1", "verif.a/v1"}} {
+			first, third := capsReuse(fams, fi, pair[0], pair[1])
+			c.Eval(3)
+			c.Distinct("caps-reuse|" + pair[0])
+			if first != third {
+				key := "determinism|repetition-with-cached-capabilities|output=manifest|feature=capabilities"
+				b, _ := json.Marshal(wrap("determinism", detReplay{Key: key, CapsReuse: []string{pair[0], pair[1]}, Variant: variant{Family: fi}, Base: variant{Family: fi}}))
+				c.Violate(prop, key, fmt.Sprintf("a second render with the same configuration (cached capabilities incl. %s) differs after an unrelated render with %s: %s", pair[0], pair[1], firstDiff(first, third)), json.RawMessage(b))
+			} else {
+				c.Outcome("caps-reuse:same-output")
+			}
+		}
+	}
 	maxDev := 1
 	if c.Thorough() {
 		maxDev = 2
